@@ -17,7 +17,7 @@ from engine.modset import ModSets
 from engine.shape import Keyer
 from engine.facts import AnalysisBroken
 
-UNITS = ['CCL']
+UNITS = ['CCL', 'CGraph']
 S = 'ccl::semantic::'
 SCHEMA = S + 'Schema'
 THES = S + 'Thesaurus'
@@ -122,6 +122,11 @@ def check(db, rep):
     r1 = rep.rule('r1', 'REFRESH: every write of a watched storage part is followed on every path to a success exit by the refreshes that kind of write requires', 20)
     refresh_rule(db, rep, r1, M, ((SCHEMA, _classify_schema, _families_schema), (THES, _classify_thes, _families_thes)))
     _rest(db, rep, M)
+    # the incremental graph maintenance the schema relies on (shared with C14 r6 / r1): a per-constituent update must drop the old edges
+    r5 = rep.rule('r5', 'GRAPH-UPDATE (shared with C14): UpdateFor replaces the inputs of the item by updater(item) on every path with a sound graph; SetItemInputs drops the old inputs on every path', 2)
+    from rules import C14
+    C14.updater_rule(db, r5)
+    C14.replace_rule(db, r5)
 
 
 def refresh_rule(db, rep, r1, M, classes):
